@@ -314,6 +314,14 @@ def fam_product(rec, rng):
     while R2[1] != R1[1]:
         R2 = exercises.ref_dfa(rng, 3, syms, names=fag.random_names(rng, 3))
     n = rng.choice([4, 5, 6])
+    if rng.random() < 0.2:
+        # two unary counters: the product has reachable states that are first reached by words LONGER than the checker's bound
+        # (round 14, C12_t: a structural check that leaves the finality of reachable states to the language comparison)
+        syms = 'a'
+        m1, m2 = rng.choice([(3, 4), (4, 5), (3, 5), (2, 5), (4, 3), (5, 4)])
+        nm1, nm2 = fag.random_names(rng, m1), fag.random_names(rng, m2)
+        R1 = fa.make(nm1, 'a', [(nm1[i], 'a', nm1[(i + 1) % m1]) for i in range(m1)], nm1[0], [q for q in nm1 if rng.random() < 0.4] or [nm1[-1]])
+        R2 = fa.make(nm2, 'a', [(nm2[i], 'a', nm2[(i + 1) % m2]) for i in range(m2)], nm2[0], [q for q in nm2 if rng.random() < 0.4] or [nm2[0]])
     P = product_ref(R1, R2, mode)
     Lref = set(fa.language_upto(P, n))
     t1, t2 = dfa_text(R1, rng), dfa_text(R2, rng)
@@ -330,6 +338,23 @@ def fam_product(rec, rng):
     eq_init = [q for q in P[0] if q != P[3] and cls[q] == cls[P[3]]]
     if eq_init:
         answers.append(('equivalent_initial_state', (P[0], P[1], P[2], rng.choice(eq_init), P[4])))
+    # wrong acceptance of a REACHABLE state that no word of length <= n reaches: invisible to the language comparison, wrong by structure
+    depth = {P[3]: 0}
+    frontier = [P[3]]
+    Pd0 = {(p, a): q for (p, a, q) in P[2]}
+    while frontier:
+        nxt = []
+        for p_ in frontier:
+            for a in P[1]:
+                q_ = Pd0.get((p_, a))
+                if q_ is not None and q_ not in depth:
+                    depth[q_] = depth[p_] + 1
+                    nxt.append(q_)
+        frontier = nxt
+    deep = sorted(q for q in depth if depth[q] > n)
+    if deep:
+        dq = rng.choice(deep)
+        answers.append(('flip_final_of_state_reached_only_beyond_the_bound', fa.make(P[0], P[1], P[2], P[3], set(P[4]) ^ {dq})))
     unreach = [q for q in P[0] if q not in reach]
     if unreach:
         u = rng.choice(unreach)
